@@ -1065,3 +1065,33 @@ def self_test():
         s = scale_partial(M.Minus(M.NPow(x, 2), M.NPow(x, 2)), {"x": 3}, "x")
         chk("scale of x^2 - x^2 is 12", abs(s - 12) < 1e-9)
     return fails
+
+
+def root_overflows_on_domain(t, env) -> bool:
+    """True when every child of t has an ordinary value ('ok') at env, the root's own documented domain condition is
+    met with room to spare, and only the root's result leaves the range the enclosure arithmetic handles.  Such a
+    point belongs to the domain: whatever the evaluation does about the magnitude, it must not be a DomainError."""
+    kids = M.children(t)
+    if not kids:
+        return False
+    rs = [ref_eval(c, env) for c in kids]
+    if any(r.status != "ok" for r in rs):
+        return False
+    if ref_eval(t, env).status != "range":
+        return False
+    tag = t[0]
+    sg = [_sign(r) for r in rs]
+    if tag == "div":
+        return sg[1] in ("pos", "neg")
+    if tag == "recip":
+        return sg[0] in ("pos", "neg")
+    if tag == "log":
+        return sg[0] == "pos"
+    if tag == "pow":
+        return sg[0] == "pos"
+    if tag == "root":
+        n = int(t[2])
+        if n == 1:
+            return True
+        return sg[0] == "pos" if n % 2 == 0 else sg[0] in ("pos", "neg")
+    return tag in ("add", "minus", "neg", "mul", "npow", "exp", "sin", "cos")
